@@ -469,6 +469,32 @@ pub fn property_domain() -> Vec<(Malformed, String)> {
         }
     };
     let mut out = Vec::new();
+    // SUBSCRIBE / UNSUBSCRIBE without any filter, with and without a user property: EmptySubscription.
+    // (Only the minimal spelling of the property length: a padded one is a second deviation from a valid
+    // packet, and which of two malformations is reported is not specified — on the pinned tree SUBSCRIBE
+    // answers InvalidRemainingLength there and UNSUBSCRIBE EmptySubscription; the model follows the code.)
+    for (first, what) in [(0x82u8, "subscribe"), (0xa2u8, "unsubscribe")] {
+        for props in [&[][..], &[0x26, 0, 1, b'k', 0, 1, b'v'][..]] {
+            for pad in 0..=0usize {
+                let mut body = vec![0, 1];
+                let mut plen = vec![props.len() as u8];
+                if pad > 0 {
+                    plen[0] |= 0x80;
+                    for k in 0..pad {
+                        plen.push(if k + 1 == pad { 0 } else { 0x80 });
+                    }
+                }
+                body.extend_from_slice(&plen);
+                body.extend_from_slice(props);
+                let mut frame = vec![first, body.len() as u8];
+                frame.extend_from_slice(&body);
+                out.push((
+                    Malformed { kind: "empty-subscription-domain", frame, expect: "EmptySubscription".into(), poll_only: false, past_frame: false },
+                    format!("{} with no filter, property length in {} byte(s), {} user properties", what, 1 + pad, props.len() / 7),
+                ));
+            }
+        }
+    }
     for host in PROP_HOSTS {
         let t = host_frame(host, &[])[0] >> 4;
         for id in 0..=255u8 {
